@@ -67,7 +67,7 @@ func genC07(rng *rand.Rand, c *Case) {
 	c.Cfg["forks"] = rng.Intn(2)
 	c.Cfg["nest"] = 16 // deeper than any chain of ".." the hostile grammar can produce
 	n := 6 + rng.Intn(30)
-	kinds := []string{"list", "info", "setinfo", "delete", "move", "mkdir", "alias", "download", "upload", "fldr-download", "fldr-upload", "newuser", "renameuser", "deluser", "setuser"}
+	kinds := []string{"alias-move", "list", "info", "setinfo", "delete", "move", "mkdir", "alias", "download", "upload", "fldr-download", "fldr-upload", "newuser", "renameuser", "deluser", "setuser"}
 	for i := 0; i < n; i++ {
 		c.Ops = append(c.Ops, Op{K: kinds[rng.Intn(len(kinds))], N: []int{rng.Intn(1 << 30)}})
 	}
@@ -251,6 +251,19 @@ func runC07(w *World) {
 						_ = x.Close()
 					}
 				}
+			case "alias-move":
+				// entirely ordinary names: an alias made deep in the tree is then moved to a shallower (or deeper) folder;
+				// wherever it ends up it must still resolve inside the file root
+				what := []string{"file.txt", "sub", "Uploads"}[rng.Intn(3)]
+				dirs := [][]string{{}, {"sub"}, {"sub", "deep"}, {"Uploads"}}
+				from, to := dirs[rng.Intn(len(dirs))], dirs[rng.Intn(len(dirs))]
+				if what == "sub" && len(from) > 0 && from[0] == "sub" {
+					from = []string{"Uploads"}
+				}
+				desc = fmt.Sprintf("alias of %q made in %v then moved to %v", what, from, to)
+				c.Do(rp.TMakeFileAlias, rp.FS(rp.FFileName, what), rp.F(rp.FFilePath, rp.FilePath()), rp.F(rp.FFileNewPath, rp.FilePath(from...)))
+				c.Do(rp.TMoveFile, rp.FS(rp.FFileName, what), rp.F(rp.FFilePath, rp.FilePath(from...)), rp.F(rp.FFileNewPath, rp.FilePath(to...)))
+				c.Request(rp.TGetFileNameList, rp.F(rp.FFilePath, rp.FilePath(append(append([]string{}, to...), what)...)))
 			case "newuser":
 				c.NewUser(hostileSeg(rng), "n", "p", rp.AccessOf(rp.PReadChat))
 			case "renameuser":
